@@ -33,12 +33,12 @@ func c10Bases(seed int64, thorough bool) []*e2eCase {
 	mk(false, true, 4, false, false, []int64{12000, 500}, other)
 	mk(true, true, 4, true, false, []int64{9000, 100}, other)   // archive stream
 	mk(false, false, 4, true, true, []int64{5000, 7000}, other) // directory, overwrite
+	// overwrite with pre-existing files of the same names (had begun to replace; the resume hash exchange)
+	mk(true, false, 4, false, true, []int64{6000, 6000}, []e2eNode{{Rel: e2eName(0, 0), Size: 50}, {Rel: "keepme.txt", Size: 100}})
 	if thorough {
 		mk(true, false, 2, false, false, []int64{9000}, nil)
 		mk(false, false, 3, false, false, []int64{9000, 10}, nil)
 		mk(true, false, 1, false, false, []int64{2500}, nil)
-		// overwrite with pre-existing files of the same names (had begun to replace)
-		mk(true, false, 4, false, true, []int64{6000, 6000}, []e2eNode{{Rel: e2eName(0, 0), Size: 50}, {Rel: "keepme.txt", Size: 100}})
 	}
 	return res
 }
